@@ -62,6 +62,8 @@ var props = map[string]*prop{
 		level: "exploration",
 		jobs: []job{
 			regress,
+			{name: "windows", run: "^TestC02_Windows$", weight: 8},
+			{name: "fresh-sweep", run: "^TestC02_FreshSweep$", shards: [2]int{8, 16}},
 			{name: "table-untagged", run: "^TestC02_Table$", plain: true, shards: [2]int{2, 4}},
 			{name: "table-int32", run: "^TestC02_Table$", arch: "386", shards: [2]int{2, 4}},
 			{name: "concurrent", run: "^TestC02_Concurrent$", weight: 8},
@@ -212,6 +214,8 @@ var props = map[string]*prop{
 			{name: "children", run: "^TestC07_Children$", shards: [2]int{8, 16}, checks: [2]int{30, 1500}},
 			{name: "inprocess", run: "^TestC07_InProcess$"},
 			{name: "faulty", run: "^TestC07_Faulty$"},
+			{name: "global-replaced", run: "^TestC07_GlobalReplaced$"},
+			{name: "slow", run: "^TestC07_Slow$", timeout: [2]time.Duration{3 * time.Minute, 10 * time.Minute}},
 		},
 		assumptions: append([]string{"crypto/rand.Reader is the operating-system CSPRNG; randomness quality is not established by sampling: the claim rests on interface identity plus byte-exact use of the source"}, baseAssumptions...),
 	},
